@@ -11,6 +11,9 @@ package main
 // cache files and indexes were deleted. Both answer sheets, the cache-level event list, the
 // git refs and the commit graph (read through RepoData) go to Coq (K_C11), where the Cache model
 // predicts the live answers and C11_ok compares live with rebuilt.
+// Staged operations are saved through both doors of the cache: BugCache.Commit() and (input flag "an")
+// BugCache.CommitAsNeeded(), the one the terminal UI and the bridge exporters use; the latter also on bugs
+// and identities with nothing pending, where it has to succeed and change nothing.
 
 import (
 	"encoding/json"
@@ -134,7 +137,7 @@ var c11Lookups = [][2]int{{0, 0}, {0, 1}, {1, 0}, {2, 1}}
 // ---- input ----
 
 type cAct struct {
-	K     string `json:"k"` // new comment title status label editcomment meta commit push pull remove resolve reopen idmut
+	K     string `json:"k"` // new comment title status label editcomment meta commit push pull remove resolve reopen idmut idsave
 	R     int    `json:"r"`
 	E     int    `json:"e,omitempty"`     // ordinal into the user's sorted local bug ids
 	W     []int  `json:"w,omitempty"`     // words of the text (title / comment / new message)
@@ -142,6 +145,7 @@ type cAct struct {
 	L     int    `json:"l,omitempty"`     // label number / metadata key / comment ordinal
 	V     int    `json:"v,omitempty"`     // metadata value / origin value
 	Stage bool   `json:"stage,omitempty"` // edit kinds: leave the operation uncommitted
+	AN    bool   `json:"an,omitempty"`    // save with CommitAsNeeded() instead of Commit() (edit kinds, idmut); commit: CommitAsNeeded() on EVERY bug, also those with nothing staged
 	Wipe  int    `json:"wipe,omitempty"`  // reopen: 0 keep the cache files, 1 delete the cache files, 2 delete the indexes
 	Es    []int  `json:"es,omitempty"`    // resolve: ordinals
 	Rot   int    `json:"rot,omitempty"`   // rotation of the observation's resolve order
@@ -224,7 +228,7 @@ type cMerge struct {
 }
 
 type cEvent struct {
-	Kind   string   `json:"kind"` // idnew idupd new edit commit push pull remove resolve reopen observe
+	Kind   string   `json:"kind"` // idnew idupd idsave new edit commit commitan push pull remove resolve reopen observe
 	R      int      `json:"r"`
 	E      int      `json:"e"`
 	Out    string   `json:"out"` // done | fail
@@ -814,11 +818,26 @@ func (s *cSession) push(ev cEvent) {
 	s.events = append(s.events, ev)
 }
 
-func (s *cSession) commitBug(r int, b *cache.BugCache) {
+// commitBug saves the loaded bug: Commit(), or (asNeeded) CommitAsNeeded(), which is what the terminal UI and the bridge exporters
+// call and which must also succeed, and change nothing, when nothing is staged.
+func (s *cSession) commitBug(r int, b *cache.BugCache, asNeeded bool) {
 	ev := cEvent{Kind: "commit", R: r, E: s.ent(b.Id())}
 	before := len(s.g.commits)
-	if err := b.Commit(); err != nil {
+	var err error
+	if asNeeded {
+		ev.Kind = "commitan"
+		if b.NeedCommit() {
+			s.tags["save:commit-as-needed"] = true
+		} else {
+			s.tags["save:commit-as-needed-nothing-staged"] = true
+		}
+		err = b.CommitAsNeeded()
+	} else {
+		err = b.Commit()
+	}
+	if err != nil {
 		ev.Out, ev.Err = "fail", err.Error()
+		s.tags["commit-failed"] = true
 	} else {
 		ev.Out = "done"
 		delete(s.staged[r], b.Id())
@@ -952,13 +971,13 @@ func (s *cSession) do(a cAct) {
 			s.tags["edit:"+a.K] = true
 		}
 		if !a.Stage && b.NeedCommit() {
-			s.commitBug(r, b)
+			s.commitBug(r, b, a.AN)
 		} else if b.NeedCommit() {
 			s.tags["staged-edit"] = true
 			s.staged[r][id] = true
 		}
 	case "commit":
-		// commits every bug that has staged operations, in id order
+		// commits every bug that has staged operations, in id order; with AN: CommitAsNeeded on every bug, staged operations or not
 		for _, id := range s.localIds(r) {
 			ev := cEvent{Kind: "resolve", R: r, E: s.ent(id), Out: "done"}
 			b, err := c.Bugs().Resolve(id)
@@ -968,8 +987,8 @@ func (s *cSession) do(a cAct) {
 				continue
 			}
 			s.push(ev)
-			if b.NeedCommit() {
-				s.commitBug(r, b)
+			if a.AN || b.NeedCommit() {
+				s.commitBug(r, b, a.AN)
 			}
 		}
 	case "idmut":
@@ -984,7 +1003,10 @@ func (s *cSession) do(a cAct) {
 		name := 2*u.versions + r
 		ev := cEvent{Kind: "idupd", R: r, E: r, V: name}
 		err = ic.Mutate(u.repo, func(m *identity.Mutator) { m.Name = c11Names[name] })
-		if err == nil {
+		if err == nil && a.AN {
+			s.tags["identity-save:commit-as-needed"] = true
+			err = ic.CommitAsNeeded()
+		} else if err == nil {
 			err = ic.Commit()
 		}
 		if err != nil {
@@ -994,6 +1016,26 @@ func (s *cSession) do(a cAct) {
 			ev.Out = "done"
 			u.versions++
 			s.tags["identity-update"] = true
+		}
+		s.push(ev)
+	case "idsave":
+		// CommitAsNeeded on the user's own identity, which has no pending version: success, nothing written
+		ic, err := c.GetUserIdentity()
+		if err != nil {
+			s.fail("GetUserIdentity: %v", err)
+			return
+		}
+		ev := cEvent{Kind: "idsave", R: r, E: r}
+		if ic.NeedCommit() {
+			s.fail("the user identity has a pending version outside an idmut action")
+			return
+		}
+		if err := ic.CommitAsNeeded(); err != nil {
+			ev.Out, ev.Err = "fail", err.Error()
+			s.tags["identity-save-failed"] = true
+		} else {
+			ev.Out = "done"
+			s.tags["identity-save:nothing-pending"] = true
 		}
 		s.push(ev)
 	case "push":
@@ -1228,9 +1270,12 @@ func genC11(r *Rand, maxActions int) cInput {
 		in.Actions = append(in.Actions, cAct{K: "push", R: a, Rot: r.Intn(5)}, cAct{K: "pull", R: 1 - a, Rot: r.Intn(5)})
 	}
 	editKinds := []string{"comment", "comment", "title", "status", "label", "label", "editcomment", "meta"}
+	// one committed edit in three is saved with CommitAsNeeded() instead of Commit()
 	edit := func(rep, e int, stage bool) cAct {
-		return cAct{K: editKinds[r.Intn(len(editKinds))], R: rep, E: e, W: words(1, 3), L: r.Intn(4), V: r.Intn(3), Rot: r.Intn(5), Stage: stage}
+		return cAct{K: editKinds[r.Intn(len(editKinds))], R: rep, E: e, W: words(1, 3), L: r.Intn(4), V: r.Intn(3), Rot: r.Intn(5), Stage: stage, AN: !stage && r.Chance(1, 3)}
 	}
+	// "commit what is staged": half of the time CommitAsNeeded() on every bug, those with nothing staged included (a no-op that succeeds)
+	commit := func(rep, rot int) cAct { return cAct{K: "commit", R: rep, Rot: rot, AN: r.Chance(1, 2)} }
 	// pullOverStaged: user rep leaves an operation uncommitted on the bug of ordinal e (sometimes after a committed edit of his own,
 	// so that the pull has to write a merge commit), the other user edits the bug of the same ordinal and publishes it, rep pulls
 	// WITHOUT committing first, and later commits whatever is staged: the update arrives for a bug that is loaded with staged
@@ -1251,7 +1296,7 @@ func genC11(r *Rand, maxActions int) cInput {
 		case 1:
 			in.Actions = append(in.Actions, edit(rep, e, false))
 		default:
-			in.Actions = append(in.Actions, cAct{K: "commit", R: rep, Rot: r.Intn(5)})
+			in.Actions = append(in.Actions, commit(rep, r.Intn(5)))
 		}
 		if r.Chance(1, 2) {
 			in.Actions = append(in.Actions, cAct{K: "push", R: rep, Rot: r.Intn(5)})
@@ -1264,33 +1309,36 @@ func genC11(r *Rand, maxActions int) cInput {
 	for len(in.Actions) < n {
 		rep := r.Intn(2)
 		rot := r.Intn(5)
-		switch x := r.Intn(42); {
+		switch x := r.Intn(43); {
+		case x == 42:
+			in.Actions = append(in.Actions, cAct{K: "idsave", R: rep, Rot: rot})
 		case x >= 40:
 			pullOverStaged(rep, r.Intn(5))
 		case x < 4:
 			in.Actions = append(in.Actions, newBug(rep))
 		case x < 16:
-			a := cAct{K: editKinds[r.Intn(len(editKinds))], R: rep, E: r.Intn(5), W: words(1, 3), L: r.Intn(4), V: r.Intn(3), Rot: rot, Stage: r.Chance(1, 4)}
+			a := edit(rep, r.Intn(5), r.Chance(1, 4))
+			a.Rot = rot
 			in.Actions = append(in.Actions, a)
 		case x < 18:
-			in.Actions = append(in.Actions, cAct{K: "commit", R: rep, Rot: rot})
+			in.Actions = append(in.Actions, commit(rep, rot))
 		case x < 21:
 			in.Actions = append(in.Actions, cAct{K: "push", R: rep, Rot: rot})
 		case x < 23:
 			// a full exchange: this user commits, pulls and pushes, then the other one commits and pulls
-			in.Actions = append(in.Actions, cAct{K: "commit", R: rep, Rot: rot}, cAct{K: "pull", R: rep, Rot: rot}, cAct{K: "push", R: rep, Rot: r.Intn(5)},
-				cAct{K: "commit", R: 1 - rep, Rot: r.Intn(5)}, cAct{K: "pull", R: 1 - rep, Rot: r.Intn(5)})
+			in.Actions = append(in.Actions, commit(rep, rot), cAct{K: "pull", R: rep, Rot: rot}, cAct{K: "push", R: rep, Rot: r.Intn(5)})
+			in.Actions = append(in.Actions, commit(1-rep, r.Intn(5)), cAct{K: "pull", R: 1 - rep, Rot: r.Intn(5)})
 		case x < 31:
 			// a pull usually follows a commit of what is staged; sometimes it does not
 			if r.Chance(3, 4) {
-				in.Actions = append(in.Actions, cAct{K: "commit", R: rep, Rot: rot})
+				in.Actions = append(in.Actions, commit(rep, rot))
 			}
 			in.Actions = append(in.Actions, cAct{K: "pull", R: rep, Rot: rot})
 			if r.Chance(1, 2) {
 				in.Actions = append(in.Actions, cAct{K: "push", R: rep, Rot: r.Intn(5)})
 			}
 		case x < 34:
-			in.Actions = append(in.Actions, cAct{K: "idmut", R: rep, Rot: rot})
+			in.Actions = append(in.Actions, cAct{K: "idmut", R: rep, Rot: rot, AN: r.Chance(1, 2)})
 			if r.Chance(1, 2) {
 				in.Actions = append(in.Actions, cAct{K: "push", R: rep, Rot: r.Intn(5)})
 			}
@@ -1304,7 +1352,7 @@ func genC11(r *Rand, maxActions int) cInput {
 			in.Actions = append(in.Actions, cAct{K: "resolve", R: rep, Es: es, Rot: rot})
 		default:
 			// closing a cache loses what is staged by definition: commit first
-			in.Actions = append(in.Actions, cAct{K: "commit", R: rep, Rot: rot})
+			in.Actions = append(in.Actions, commit(rep, rot))
 			w := 0
 			if r.Chance(1, 3) {
 				w = 1 + r.Intn(2)
@@ -1591,6 +1639,11 @@ func (s *cSession) coqCase() string {
 		case "commit":
 			pid, a := pack()
 			h = fmt.Sprintf("HEv (VCommit %d %d %d%%N %d%%N)", ev.R, ev.E, pid, a)
+		case "commitan":
+			pid, a := pack()
+			h = fmt.Sprintf("HEv (VCommitAsNeeded %d %d %d%%N %d%%N)", ev.R, ev.E, pid, a)
+		case "idsave":
+			h = fmt.Sprintf("HEv (VIdCommitAsNeeded %d %d)", ev.R, ev.E)
 		case "push":
 			h = fmt.Sprintf("HEv (VPush %d)", ev.R)
 		case "pull":
